@@ -233,8 +233,9 @@ def consistency_result(ctx, c):
                 break
         return l
     best = None
+    tuple_best = None
     for b in c.blocks:
-        if b['cleanup']:
+        if b['cleanup'] or b.get('dead'):
             continue
         for s in b['stmts']:
             if s['k'] != 'assign' or s['rv']['k'] != 'aggregate':
@@ -244,7 +245,12 @@ def consistency_result(ctx, c):
             if kind.get('a') == 'tuple' and len(ops) == 2 and s['place']['ty'] == '(usize, usize)':
                 locs = [origin(o['place']['l']) if o['k'] in ('copy', 'move') else None for o in ops]
                 if None not in locs:
-                    return b['i'], locs[0], locs[1], None
+                    # (the pair that is returned, not the initial value of a fold accumulator: the last one on the way to the return)
+                    pos = {x: n for n, x in enumerate(ctx.cfgof(c).rpo)}
+                    cand = (pos.get(b['i'], -1), b['i'], locs[0], locs[1])
+                    if tuple_best is None or cand[0] > tuple_best[0]:
+                        tuple_best = cand
+                    continue
             if kind.get('a') == 'adt' and not kind.get('path', '').startswith('std::') and 'fields' in kind and 'ProofError' not in kind.get('path', ''):
                 # a result struct: a usize component computed as a product (the length) and a statement reference obtained by indexing the
                 # statements with a local (the index)
@@ -274,6 +280,8 @@ def consistency_result(ctx, c):
                                     idx_l, fname = cand, fn_
                 if len_l is not None and idx_l is not None:
                     best = (b['i'], len_l, idx_l, fname)
+    if tuple_best is not None:
+        return tuple_best[1], tuple_best[2], tuple_best[3], None
     return best
 
 
@@ -427,8 +435,8 @@ def check_consistency_pair(ctx, rule):
             return x.tag == 'lv' and x[2] == len_l
     else:
         # the pair is the accumulator of a fold: (length, index) = fields of one loop-carried tuple
-        t_idx = ctx.eng.local(c, bb, 0, idx_l)
-        t_len = ctx.eng.local(c, bb, 0, len_l)
+        t_idx = ctx.eng.local(c, bb, TERM_IDX, idx_l)
+        t_len = ctx.eng.local(c, bb, TERM_IDX, len_l)
 
         def carried_fields(t):
             return [(x[1], strip_mut(x[2])) for x in walk(t) if x.tag == 'field' and str(x[1]).isdigit() and strip_mut(x[2]).tag == 'lv']
